@@ -265,6 +265,15 @@ func Check(c *Case) (res kit.Result) {
 				if !sizesOK(&res, "pooled buffer after AppendSample", c, b, bits) {
 					return
 				}
+			} else {
+				// a zero-length buffer with capacity is used before it goes back: the next one
+				// obtained must be a zero-length buffer again in every respect
+				for k := 0; k < c.N; k++ {
+					b.AppendSample(kit.IV(int64(1 + k%9)))
+				}
+				if c.N > 0 {
+					res.Class("pooledZeroLengthBufferUsedBeforePut")
+				}
 			}
 			if p, v := kit.Try(func() { pool.Put(b) }); p {
 				res.Failf("Put of a buffer obtained from PoolAlloc(%+v) panicked: %v", c.alloc(), v)
